@@ -21,11 +21,25 @@ def run(ctx):
         return
     d = ctx.rundir
     nproc = 2 if ctx.tier == 'quick' else 12
-    outs = []
+    # separate processes (fresh map seeds), run side by side; process 0 writes into the run directory
+    import subprocess
+    hbin = ctx.build_go('v2')
+    if not hbin:
+        return
+    procs = []
     for k in range(nproc):
-        if not _v2.harness(ctx, 'c04'):
+        od = d if k == 0 else os.path.join(d, 'proc%d' % k)
+        os.makedirs(od, exist_ok=True)
+        procs.append((od, subprocess.Popen([hbin, 'c04', str(ctx.seed), ctx.tier, od], stdout=subprocess.PIPE, stderr=subprocess.STDOUT)))
+    outs = []
+    for od, p in procs:
+        out, _ = p.communicate()
+        if p.returncode != 0:
+            ctx.gate_breaks.append('harness c04 failed: %s' % out.decode(errors='replace')[-400:])
             return
-        outs.append(open(d + '/c04.impl').read())
+        outs.append(open(od + '/c04.impl').read())
+        if od != d:
+            shutil.rmtree(od, ignore_errors=True)
     ctx.oracle_stream('determinism-histories', d + '/c04.verdicts', d + '/c04.cases')
     lines0 = outs[0].split('\n')
     diff = [(k, i) for k in range(1, nproc) for i, l in enumerate(outs[k].split('\n')) if i < len(lines0) and l != lines0[i]]
